@@ -241,7 +241,8 @@ def run_impl_case(c, timeout=20.0):
     signal.signal(signal.SIGALRM, _alarm)
     if not c.get("no_noise"):
         noise.maybe_run(ds)
-    signal.setitimer(signal.ITIMER_REAL, timeout)
+    # repeating: the implementation may swallow the first CaseTimeout in a broad except clause
+    signal.setitimer(signal.ITIMER_REAL, timeout, 1.0)
     scratch = None
     try:
         k = c["kind"]
